@@ -147,6 +147,8 @@ SerEffect(cs, g) ==
 \* =====================================================================================================
 \* Serializable: what a round trip through ONNX names and scopes can preserve
 \* =====================================================================================================
+HasInfoRaw(cs, v) == cs.ty[v] # "" \/ cs.sh[v] # NoShape \/ cs.md[v] # {} \/ cs.vdoc[v] # ""
+
 \* S1  the nesting under g is a tree of depth <= MaxNest: no graph attached twice, none inside itself
 TreeOK(cs, g) ==
   LET q == GraphSeq(cs, g, MaxNest + 1)
@@ -179,12 +181,29 @@ ResolvesTo(cs, chain, v) ==      \* chain: the graph and its ancestors, innermos
   \E k \in DOMAIN chain :
      /\ v \in DefinedBy(cs, chain[k])
      /\ \A j \in 1..(k - 1) : cs.s.vName[v] \notin DefNames(cs, chain[j])
-RECURSIVE ScopesOK(_, _, _, _)
-ScopesOK(cs, h, outer, d) ==
+\* S4'  a value that nothing defines any more (its producer was removed without safe=True, ...) may still be used:
+\*      it is written as a bare name and read back as ONE placeholder value, provided all its uses sit in a single
+\*      graph (the placeholder lives in the innermost scope), its name resolves to nothing else there, no other
+\*      undefined value of the model has the same name, it is not a graph output, and it carries nothing but its
+\*      name (type, shape, metadata and doc string of a value nobody defines are not written)
+UndefinedIn(cs, root, v) == \A h2 \in GraphSetOf(cs, root) : v \notin DefinedBy(cs, h2)
+UserGraphs(cs, root, v) ==
+  {h2 \in GraphSetOf(cs, root) : InSeq(NodeInsOf(cs, h2), v) \/ InSeq(cs.s.gOut[h2], v)}
+DanglesLocally(cs, root, chain, v) ==
+  /\ UndefinedIn(cs, root, v)
+  /\ UserGraphs(cs, root, v) = {chain[1]}
+  /\ ~InSeq(cs.s.gOut[chain[1]], v)
+  /\ \A j \in DOMAIN chain : cs.s.vName[v] \notin DefNames(cs, chain[j])
+  /\ \A h2 \in GraphSetOf(cs, root) : \A w \in (RangeS(NodeInsOf(cs, h2)) \cup RangeS(cs.s.gOut[h2])) \ {0, v} :
+        cs.s.vName[w] = cs.s.vName[v] => ~UndefinedIn(cs, root, w)     \* no other undefined value of that name anywhere
+  /\ ~HasInfoRaw(cs, v)
+RECURSIVE ScopesOKR(_, _, _, _, _)
+ScopesOKR(cs, root, h, outer, d) ==
   LET chain == <<h>> \o outer IN
-  /\ \A v \in RangeS(NodeInsOf(cs, h)) \ {0} : ResolvesTo(cs, chain, v)
+  /\ \A v \in RangeS(NodeInsOf(cs, h)) \ {0} : ResolvesTo(cs, chain, v) \/ DanglesLocally(cs, root, chain, v)
   /\ \A v \in RangeS(cs.s.gOut[h]) : v \in DefinedBy(cs, h)
-  /\ d > 0 => \A y \in DOMAIN ChildrenOf(cs, h) : ScopesOK(cs, ChildrenOf(cs, h)[y], chain, d - 1)
+  /\ d > 0 => \A y \in DOMAIN ChildrenOf(cs, h) : ScopesOKR(cs, root, ChildrenOf(cs, h)[y], chain, d - 1)
+ScopesOK(cs, h, outer, d) == ScopesOKR(cs, h, h, outer, d)
 \* S4 without the clause on graph outputs (used to count the states only that clause excludes)
 RECURSIVE InputsResolve(_, _, _, _)
 InputsResolve(cs, h, outer, d) ==
